@@ -54,7 +54,7 @@ Definition v_int (val mn mx : option intv) (p : path) (v : value) : list verror 
   | None => [VE (EType TInt) p v]
   | Some z =>
       match (match val with Some e => check_value p v (of_intv e) | None => [] end) with
-      | _ :: _ as errs => errs
+      | (_ :: _) as errs => errs
       | [] =>
           (match mn with Some m => if z <? iz m then [VE (EMin (of_intv m)) p v] else [] | None => [] end) ++
           (match mx with Some m => if iz m <? z then [VE (EMax (of_intv m)) p v] else [] | None => [] end)
@@ -74,7 +74,7 @@ Definition v_float (val mn mx : option float) (prec : option intv) (p : path) (v
       match (match val with
              | Some e => if float_value_ok x e prec then [] else [VE (EValue (VFloat e)) p v]
              | None => [] end) with
-      | _ :: _ as errs => errs
+      | (_ :: _) as errs => errs
       | [] =>
           (match mn with Some m => if PrimFloat.ltb x m then [VE (EMin (VFloat m)) p v] else [] | None => [] end) ++
           (match mx with Some m => if PrimFloat.ltb m x then [VE (EMax (VFloat m)) p v] else [] | None => [] end)
@@ -90,12 +90,12 @@ Definition v_str (val : option pystr) (len mnl mxl : option intv) (alpha sub : o
   match v with
   | VStr s =>
       match (match val with Some e => check_value p v (VStr e) | None => [] end) with
-      | _ :: _ as errs => errs
+      | (_ :: _) as errs => errs
       | [] =>
           match (match pat with
                  | Some pt => if pat_search pt s then [] else [VE (ERegex (fst pt)) p v]
                  | None => [] end) with
-          | _ :: _ as errs => errs
+          | (_ :: _) as errs => errs
           | [] =>
               check_len p v (zlen s) len mnl mxl ++
               (match sub with Some t => if infix t s then [] else [VE (ESubstr t) p v] | None => [] end) ++
@@ -219,7 +219,7 @@ Fixpoint validate (m : mode) (s : schema) (p : path) (v : value) {struct s} : li
       match v with
       | VList l =>
           match check_len_first p v (zlen l) len mnl mxl with
-          | _ :: _ as errs => errs
+          | (_ :: _) as errs => errs
           | [] =>
               match ty with
               | Some t => typed_logic m (validate m t) p l
@@ -300,7 +300,7 @@ Definition catch_ov {A} (r : result A) (fallback : result A) : result A :=
 Definition vr_int (val mn mx : option intv) (p : path) (v : value) : result (list verror) :=
   if negb (isinst TInt v) then Ok [VE (EType TInt) p v] else
   match (match val with Some e => check_value p v (of_intv e) | None => [] end) with
-  | _ :: _ as errs => Ok errs
+  | (_ :: _) as errs => Ok errs
   | [] =>
       do e1 <- match mn with
                | Some m => do z <- r_as_int v;
@@ -348,7 +348,7 @@ Definition vr_str (val : option pystr) (len mnl mxl : option intv) (alpha sub : 
            (pat : option (pystr * list re)) (p : path) (v : value) : result (list verror) :=
   if negb (isinst TStr v) then Ok [VE (EType TStr) p v] else
   match (match val with Some e => check_value p v (VStr e) | None => [] end) with
-  | _ :: _ as errs => Ok errs
+  | (_ :: _) as errs => Ok errs
   | [] =>
       do ep <- match pat with
                | None => Ok []
@@ -469,7 +469,7 @@ Fixpoint validateR (m : mode) (s : schema) (p : path) (v : value) {struct s}
       if negb (isinst TList v) then Ok [VE (EType TList) p v] else
       do l <- r_as_list v;
       match check_len_first p v (zlen l) len mnl mxl with
-      | _ :: _ as errs => Ok errs
+      | (_ :: _) as errs => Ok errs
       | [] =>
           match ty with
           | Some t => typed_logicR m (validateR m t) p l
